@@ -375,6 +375,48 @@ def check_assign_rebuilds(P, ctx, T, clear, insert, rule):
     ctx.floor(rule, 2)
 
 
+def check_rb_invariant(P, ctx):
+    """SHAPE: the loop invariants of the two fix-up loops are inductive and imply a valid red-black tree at every return
+    (abstract interpretation over materialised nodes + summary subtrees, see rbshape.py)"""
+    from . import rbshape
+    rule = 'C03.rb-invariant'
+    for fname, kind, inv in (
+            ('Tree_Rem_Fix', 'rem', 'the subtree at `node` is one black short, everything else is a valid red-black tree'),
+            ('Tree_Set_Fix', 'set', '`node` is red, possibly under a red parent or at the root, everything else is a valid red-black tree')):
+        fn = P.fn(fname)
+        ctx.fn(fn)
+        res = rbshape.explore(P, fname, kind)
+        for f in sorted(res.get('functions', ())):
+            ctx.fn(f)
+        ctx.stats['paths'] += res['returns'] + res['loopbacks']
+        if res['unsupported']:
+            ctx.undecided(rule, fname + ':evaluable', site(fn), 'the fix-up leaves the fragment the shape interpreter evaluates: ' + res['unsupported'][0])
+            continue
+        by = {'return': [], 'loop': [], 'during the step': []}
+        for v in res['violations']:
+            by[v['exit']].append(v)
+
+        def det(vs):
+            if not vs:
+                return None
+            v = vs[0]
+            return (['%d abstract states fail; first:' % len(vs), 'loop-head state: %s, %s' % (v['pre'], v['h'])]
+                    + ['  focus  ' + x for x in v['focus']] + ['statement lines taken: %s' % v['lines'], 'violated: ' + v['what']])
+        ok = not by['return'] and res['returns'] > 0
+        ctx.check(ok, rule, fname + ':return-leaves-valid-tree', site(fn, by['return'][0]['lines'][-1] if by['return'] and by['return'][0]['lines'] else None),
+                  'from every tree in which %s, every path to a return leaves a valid red-black tree (links paired, no red-red, equal '
+                  'black heights, height and colour compatible with the unexamined context, root black) — %d abstract paths' % (inv, res['returns']),
+                  det(by['return']))
+        ok = not by['loop']
+        ctx.check(ok, rule, fname + ':continue-preserves-invariant', site(fn, by['loop'][0]['lines'][-1] if by['loop'] and by['loop'][0]['lines'] else None),
+                  'every path back to the loop head re-establishes that invariant for a node strictly nearer the root (so the loop runs at '
+                  'most height-many times) — %d abstract paths' % res['loopbacks'], det(by['loop']))
+        ok = not by['during the step']
+        ctx.check(ok, rule, fname + ':no-null-node-access', site(fn, by['during the step'][0]['line'] if by['during the step'] else None),
+                  'no step reads or writes a field of a NULL node from any such tree', det(by['during the step']))
+    ctx.floor(rule, 6)
+
+
 def run(ctx, load):
     P = load(UNITS, 'default')
     ctx.stats['units'] = set(UNITS)
@@ -386,6 +428,7 @@ def run(ctx, load):
     check_layout(P, ctx)
     check_colour_transfer(P, ctx)
     check_assign_rebuilds(P, ctx, 'Tree', 'Tree_Clear', 'Tree_Set', 'C03.assign-rebuilds')
+    check_rb_invariant(P, ctx)
     if ctx.tier == 'thorough':
         Pc = load(UNITS, 'ndebug')
         ctx.stats['configs'].append('ndebug')
